@@ -7,7 +7,7 @@ from . import formats_common as fc
 from .common import Oracle, Suite, errname, merge
 
 GEN_UNITS = ["B64", "Handlers", "PyUnicode", "PyCase", "StaticFmt"]
-LEAN_TARGETS = ["PasslibVerif.Props.C07", "PasslibVerif.Props.C07Static", "PasslibVerif.Props.C07DesBcrypt"]
+LEAN_TARGETS = ["PasslibVerif.Props.C07", "PasslibVerif.Props.C07Static", "PasslibVerif.Props.C07DesBcrypt", "PasslibVerif.Props.C07Pbkdf"]
 ASSUMPTIONS = [
     "formats without a Lean model yet are explored by the real-code round-trip oracle only (listed under only_correspondence_checked)",
 ]
